@@ -355,14 +355,18 @@ class List(list, base.Symbolic, pg_typing.CustomTyping):
     # from insertions and deletions.
     path_value_pairs = sorted(
         path_value_pairs.items(), key=lambda x: x[0], reverse=True)
-    for k, v in path_value_pairs:
-      update = self._set_item_of_current_tree(k, v)
-      if update is not None:
-        updates.append(update)
+    try:
+      for k, v in path_value_pairs:
+        update = self._set_item_of_current_tree(k, v)
+        if update is not None:
+          updates.append(update)
+    finally:
+      # NOTE: also when an update is rejected midway, the updates applied so
+      # far shall leave the list consistent.
+      self._sync_children()
     # Reverse the updates so the update is from the smallest number to
     # the largest.
     updates.reverse()
-    self._sync_children()
     return updates
 
   def _sym_nondefault(self) -> Dict[int, Any]:
@@ -416,6 +420,15 @@ class List(list, base.Symbolic, pg_typing.CustomTyping):
       # Generates no update as old value is the same as the new value.
       if old_value is value:
         return None
+      if (pg_typing.MISSING_VALUE == value
+          and self._value_spec and self._value_spec.min_size > 0):
+        # Deletion of an element (a placeholder is stored until synced).
+        num_items = sum(
+            1 for v in list.__iter__(self) if pg_typing.MISSING_VALUE != v)
+        if num_items <= self._value_spec.min_size:
+          raise ValueError(
+              f'Cannot delete item: min size ({self._value_spec.min_size}) '
+              f'is reached.')
 
     if (old_value is pg_typing.MISSING_VALUE
         and self.max_size is not None and len(self) >= self.max_size):
